@@ -33,6 +33,7 @@ EXPLANATION = (
   " (ITEM-source) an object built once per item of an inner loop is filled only with values that derive from that item or do not vary with the loops, never with a value of the enclosing container standing where the item's own belongs;"
   ' (LOOP-break) no loop over the items of a collection is left by a branch that does nothing but `break` on a test about the item (end-of-input sentinels, flags set in the loop body and searches whose variable is read afterwards excepted): an item that is to be skipped does not end the processing of the items after it;'
   ' (FIN-regex) the white-space collapsing substitution treats exactly SPACE, TAB, CR and LF as linear white space (NBSP, ideographic and em spaces, VT and FF are characters);'
+  + common.SHARED_CLAUSES['validators']
 )
 RULE_TEXT = "per length-bearing property, per mutator call on ISD-owned values, per return site, per document parameter"
 UNDECIDED = ["white-space collapsing results", "emptiness pruning as semantics (no empty text node, no childless span)",
@@ -404,16 +405,28 @@ def check_text_roots(ctx):
     raise AnalysisError(f"_process_element: expected one guarded call of _construct_text_list, found {len(guards)}")
   g = guards[0]
   ctl = ix.func("ttconv.isd:_construct_text_list")
-  # the classes at which _construct_text_list stops descending
-  stop = set()
-  for n in own_nodes(ctl.node):
-    if isinstance(n, ast.Call) and unparse(n.func) == "isinstance" and isinstance(n.args[1], ast.Tuple) and isinstance(parent(n), ast.UnaryOp):
-      for e in n.args[1].elts:
-        r = ix.resolve(ctl.module, e, func=ctl)
-        if isinstance(r, ClassInfo):
-          stop.add(r.name)
-  ctx.check({"Rt", "Rtc", "Rp"} <= stop, "TYPE-GUARD", f"{ctl.qualname}|ruby text is not part of the paragraph's run", ctx.where(ctl.module, ctl.node), f"stops at {sorted(stop)}",
-            f"_construct_text_list descends into ruby text ({sorted({'Rt', 'Rtc', 'Rp'} - stop)}): white space of annotations is merged with the base text")
+  # the run of text of a paragraph: by interpretation on a sample paragraph (whatever the control structure of the walk)
+  from ..consteval import NotConst as _NC, Raised as _R
+  from ..rules.minieval import MiniEval, Node
+  T = lambda nm, tx: Node("Text", nm, (), text=tx)
+  sample = Node("P", "p", [
+    Node("Span", "s1", [T("a", "a"), Node("Ruby", "ruby", [
+      Node("Rb", "rb", [T("b", "b")]), Node("Rt", "rt1", [T("c", "c")]),
+      Node("Rtc", "rtc", [Node("Rp", "rp1", [T("lp", "(")]), Node("Rt", "rt2", [T("d", "d")]), Node("Rp", "rp2", [T("rp", ")")])])])]),
+    Node("Br", "br", ()), T("empty", ""), Node("Span", "s2", [Node("Span", "s3", [T("e", "e")]), T("f", "f")]), T("g", "g")])
+  want = ["a", "b", "br", "e", "f", "g"]
+  key_ = f"{ctl.qualname}|ruby text is not part of the paragraph's run"
+  try:
+    out_ = []
+    MiniEval(ix, node_methods={"get_text": lambda n_: n_.fields.get("text")}).call(ctl, [sample, out_])
+    got = [n_.name for n_ in out_ if isinstance(n_, Node)]
+    ctx.check(got == want, "TYPE-GUARD", key_, ctx.where(ctl.module, ctl.node), f"interpreted on a sample paragraph: {got}",
+              f"interpreted on a sample paragraph (spans, a ruby container with rb, rt and rtc > rp rt rp, a br, an empty text node), _construct_text_list collects {got} instead of {want}: "
+              "the run of text of a paragraph is its non-empty text nodes and line breaks in document order, without the text of ruby annotations (rt, rtc, rp)")
+  except _R:
+    ctx.bad("TYPE-GUARD", key_, ctx.where(ctl.module, ctl.node), "interpreted on a sample paragraph, _construct_text_list raises")
+  except _NC as ex_:
+    ctx.undecide("TYPE-GUARD", f"{ctl.qualname}: not in the interpreted subset ({ex_})")
   model_mod = ix.mod("ttconv.model")
   base = ix.cls("ttconv.model:ContentElement")
   concrete = [c for c in ix.all_subclasses(base) if c.module is model_mod and c.name in cm_oracle.ALLOWED_CHILDREN]
@@ -440,6 +453,7 @@ def check_text_roots(ctx):
 
 
 def run(ctx):
+  common.check_shared_helpers(ctx, validators=True)
   ix = ctx.ix
   check_lengths(ctx)
   prov, ps, fs = c14.build_provenance(ctx)
